@@ -154,6 +154,91 @@ def inherited_default_revalidated(ctx, rule):
         ctx.ok(rule, f, vn, "guard `%s`: %d abstract cases, falsy non-None defaults are treated like any other default" % (" / ".join(norm(t.ast) for t, _ in tests), n))
 
 
+def getstate_complete(ctx, rule):
+    """Parameterized.__getstate__ interpreted abstractly: the state handed to pickle / deepcopy holds the instance's
+    complete value store -- also the entries that are (still) the very object the class declares as default: that
+    entry is what pins a constant to the instance."""
+    from engine.absint import Interp, Obj, Unsupported
+    from engine.loader import AnalysisError
+    gs = ctx.repo.method(P + "Parameterized", "__getstate__")
+    dflt = Obj("class_default_of_c")
+    own = Obj("own_value_of_x")
+    priv = Obj("instance_private", values={"c": dflt, "x": own, "name": "P00001"}, params={}, __kind__="_InstancePrivate")
+    cls = Obj("Cls", param=Obj("class_namespace"))
+    me = Obj("instance", _param__private=priv, plain_attribute=Obj("attr"))
+    me.attrs["__dict__"] = {"_param__private": priv, "plain_attribute": me.attrs["plain_attribute"]}
+    me.attrs["__type__"] = cls
+
+    def hook(fn, args, kwargs):
+        if fn == "get_occupied_slots":
+            return []
+        if fn == "isinstance" and len(args) == 2:
+            return isinstance(args[0], Obj) and args[0].attrs.get("__kind__") == "_InstancePrivate"
+        if fn == "type" and args and args[0] is me:
+            return cls
+        if fn.endswith(".param.objects"):
+            return {"c": Obj("P_c", default=dflt), "x": Obj("P_x", default=Obj("class_default_of_x")), "name": Obj("P_name", default="P")}
+        if fn in ("copy.copy", "copy"):
+            a = args[0]
+            return Obj("copy_of_" + a.name, **dict(a.attrs)) if isinstance(a, Obj) else (dict(a) if isinstance(a, dict) else a)
+        return NotImplemented
+    it = Interp(ctx.hier, dyn=P + "Parameterized", inline=lambda m: False, call_hook=hook, globals={"_InstancePrivate": "<_InstancePrivate>"})
+    try:
+        outs = it.run_all(gs, {gs.params[0]: me})
+    except Unsupported as e:
+        raise AnalysisError("absint cannot interpret Parameterized.__getstate__: %s -- %s cannot decide" % (e, rule))
+    ctx.abstract_cases += 1
+    if len(outs) != 1 or outs[0].imprecise or outs[0].kind != "return" or not isinstance(outs[0].value, dict):
+        raise AnalysisError("absint imprecise on Parameterized.__getstate__ -- %s cannot decide" % rule)
+    st = outs[0].value
+    p2 = st.get("_param__private")
+    vals = p2.attrs.get("values") if isinstance(p2, Obj) else None
+    if not isinstance(vals, dict) or set(vals) != {"c", "x", "name"} or vals.get("c") is not dflt or vals.get("x") is not own:
+        ctx.fail(rule, gs, gs.node, "the state saved for an instance whose value store holds {c: <the class default object>, x: <own value>} holds %s: the entry that is still the class default is what "
+                                    "pins a constant to the instance -- a copy / unpickled object without it follows later class-level changes" % (
+                                        sorted(vals) if isinstance(vals, dict) else vals), key=gs.qualname + "::value-store-incomplete",
+                 input="c = copy.deepcopy(p); P.const = other -> c.const is other")
+    elif st.get("plain_attribute") is not me.attrs["plain_attribute"]:
+        ctx.fail(rule, gs, gs.node, "an ordinary attribute of the instance is missing from the saved state", key=gs.qualname + "::attribute-missing")
+    else:
+        ctx.ok(rule, gs, gs.node, "the saved state holds every ordinary attribute and the complete value store (entries equal to the class default included)")
+
+
+def class_cm_restores(ctx, rule):
+    """Class-based context managers (__enter__/__exit__): every attribute that __enter__ assigns is assigned again on
+    every path through __exit__ (exceptional outcome of the block included: __exit__ is what runs then)."""
+    n = 0
+    for cq, cobj in ctx.repo.classes.items():
+        en, ex = cobj.method("__enter__"), cobj.method("__exit__")
+        if en is None or ex is None:
+            continue
+        targets = sorted({norm(t) for st in ast.walk(en.node) if isinstance(st, ast.Assign) for t in st.targets if isinstance(t, ast.Attribute)})
+        if not targets:
+            continue
+        cfg = ctx.facts.cfg(ex)
+        for tgt in targets:
+            n += 1
+            seen, stack, skipped = set(), [cfg.entry], False
+            while stack:
+                nd = stack.pop()
+                if nd.id in seen:
+                    continue
+                seen.add(nd.id)
+                if nd.kind == "stmt" and isinstance(nd.ast, ast.Assign) and any(norm(t) == tgt for t in nd.ast.targets):
+                    continue
+                if nd is cfg.exit:
+                    skipped = True
+                    break
+                stack.extend(t for l, t in nd.succ if l != "e")
+            if skipped:
+                ctx.fail(rule, ex, ex.node, "%s.__enter__ sets `%s`, but a path through __exit__ returns without setting it again: when the block ends that way (e.g. with an exception) "
+                                            "the switch stays on for everything that follows" % (cobj.name, tgt), key="%s::%s::not-restored-on-every-path" % (ex.qualname, tgt),
+                         input="with shared_parameters(): raise ...  (caught by the caller) -> later instances share their instantiate=True values")
+            else:
+                ctx.ok(rule, ex, ex.node, "%s: `%s` is assigned on every path through __exit__" % (cobj.name, tgt))
+    ctx.require(n >= 1, "no class-based context manager with state found")
+
+
 def event_model(ctx, rule, prop):
     """Event.__set__ interpreted abstractly: mode x outcome of the assignment proper (succeeds / refused / a watcher raises)."""
     import itertools
